@@ -257,7 +257,7 @@ theorem compileStmt_inv {I I' : Interp ν} {s : TopStatic ν} (h : InvS I s) (st
       · by_cases hi2 : i = s.funs.length
         · subst hi2
           simp at hc; subst hc
-          refine ⟨rfl, rfl, List.prefix_refl _, List.prefix_refl _, _, cs, ⟨rfl, rfl, h.locals, h.functions, h.ffi, ?_, ?_⟩,
+          refine ⟨rfl, rfl, List.prefix_refl _, List.prefix_refl _, _, cs, ⟨rfl, rfl, h.locals, by show I.functions ++ _ = s.fnNames ++ _; rw [h.functions], h.ffi, ?_, ?_⟩,
             h1, ?_, List.prefix_refl _, ?_, ?_, ?_, hfb, hfw⟩
           · show I.chunks.map Chunk.name ++ [d.name] = _
             simp only [tableOf, declare, h.names]
